@@ -1740,12 +1740,18 @@ class BootstrapElectionModel(BaseElectionModel):
         aggregate_error_B_4 = aggregate_z_total_pred
 
         # (sum_{i = 1}^N w_i * \tilde_{y_i}^b * \tilde_{z_i}^b) /  (\sum_{i = 1}^N w_i * \tilde_{z_i}^b)
-        self.divided_error_B_1 = np.nan_to_num(aggregate_error_B_1 / aggregate_error_B_3)
+        divided_error_B_1 = np.nan_to_num(aggregate_error_B_1 / aggregate_error_B_3)
 
         # (\sum_{i = 1}^N w_i * (\hat_{y_i} + \residual_{y, i}^b) *
         # (\hat{z_i} + \residual_{z, i}^b)) /
         # (\sum_{i = 1}^N w_i * (\hat{z_i} + \residual_{z, i}^b))
-        self.divided_error_B_2 = np.nan_to_num(aggregate_error_B_2 / aggregate_error_B_4)
+        divided_error_B_2 = np.nan_to_num(aggregate_error_B_2 / aggregate_error_B_4)
+
+        # the national summary is a function of the top level contests only, so only keep their bootstrap margins.
+        # Otherwise it would use the draws of whichever aggregate happened to be computed last
+        if self._is_top_level_aggregate(aggregate):
+            self.divided_error_B_1 = divided_error_B_1
+            self.divided_error_B_2 = divided_error_B_2
 
         # we also need to re-compute our aggregate prediction to add to our error to get the prediction interval
         # first the turnout component
@@ -1765,7 +1771,7 @@ class BootstrapElectionModel(BaseElectionModel):
 
         lower_q, upper_q = self._get_quantiles(alpha)
 
-        error_diff = self.divided_error_B_1 - self.divided_error_B_2
+        error_diff = divided_error_B_1 - divided_error_B_2
 
         interval_upper, interval_lower = (
             aggregate_perc_margin_total - np.quantile(error_diff, q=[lower_q, upper_q], axis=-1).T
